@@ -1867,3 +1867,152 @@ Proof.
     as [d [Hopen [Hobs _]]].
   exists st, d. auto.
 Qed.
+
+(* ------------------------------------------------------------------ *)
+(* The unrestricted statements are false of the faithful model          *)
+
+Lemma fresh_empty f : fresh empty_store f.
+Proof. repeat split; intros ? []. Qed.
+
+Lemma ids_fresh_empty : ids_fresh empty_store.
+Proof. intros ? []. Qed.
+
+(* chunk size 0: upload divides by the chunk size — Close (or the Write that
+   fills the buffer) panics; nothing is stored under a file record *)
+Theorem upload_concat_refuted_zero_chunk_size :
+  exists c data,
+    fresh empty_store 1 /\ ids_fresh empty_store /\
+    upload_run c empty_store 1 0 [data] = None /\
+    (let '(st, u, _) := write c empty_store (new_upload 1 0) data in snd (close c st u)) = UPanic.
+Proof.
+  exists (mkCfg 16 false), [1; 2; 3].
+  split; [apply fresh_empty|]. split; [apply ids_fresh_empty|]. vm_compute. split; reflexivity.
+Qed.
+
+(* negative chunk size: make([]interface{}, 0, negative) / slice bounds *)
+Theorem upload_concat_refuted_negative_chunk_size :
+  exists c data,
+    upload_run c empty_store 1 (-1) [data] = None /\
+    (let '(st, u, _) := write c empty_store (new_upload 1 (-1)) data in snd (close c st u)) = UPanic.
+Proof. exists (mkCfg 16 true), [1; 2; 3]. vm_compute. split; reflexivity. Qed.
+
+(* ... and with an empty content an untracked Close stores a file record
+   that can never be opened for download *)
+Theorem upload_concat_refuted_nonpositive_empty :
+  exists c st,
+    upload_run c empty_store 1 (-1) [] = Some st /\ dopen st 1 = DOpenErr EOther.
+Proof.
+  exists (mkCfg 16 false). eexists. split; [vm_compute; reflexivity|]. vm_compute. reflexivity.
+Qed.
+
+(* chunk size > buffer: once the buffer is full upload(false) frees nothing
+   and Write spins forever (the model's fuel runs out: NHang) *)
+Theorem upload_concat_refuted_chunk_size_over_buffer :
+  exists c cs data,
+    cs > cfg_B c /\
+    snd (write c empty_store (new_upload 1 cs) data) = NHang /\
+    upload_run c empty_store 1 cs [data] = None.
+Proof. exists (mkCfg 4 false), 5, [1; 2; 3; 4; 5]. vm_compute. repeat split; reflexivity. Qed.
+
+(* the hang is not an artefact of the fuel: with a full buffer and cs > B an
+   iteration of the Write loop returns to the same state *)
+Theorem write_no_progress c st u :
+  cfg_B c < u_cs u -> zlen (u_buf u) = cfg_B c -> 0 < cfg_B c ->
+  (cfg_tracked c = true -> u_marker u <> None) ->
+  upload c false st u = (st, u, UOk).
+Proof.
+  intros Hcs Hfull HB Hm. unfold upload.
+  assert (E1 : (u_cs u =? 0) = false) by lia. assert (E2 : (u_cs u <? 0) = false) by lia.
+  rewrite E1, E2. cbn [andb].
+  assert (Hloop : chunk_loop (S (llen (u_buf u))) false (u_cs u) (u_buf u) = Some ([], u_buf u)).
+  { cbn [chunk_loop]. assert (E3 : (0 <? zlen (u_buf u)) = true) by lia. rewrite E3.
+    assert (E4 : (zlen (u_buf u) >? u_cs u) = false) by lia. rewrite E4.
+    assert (E5 : (zlen (u_buf u) <? u_cs u) = true) by lia. rewrite E5. reflexivity. }
+  rewrite Hloop.
+  assert (Hmk : (is_none (u_marker u) && cfg_tracked c) = false).
+  { destruct (cfg_tracked c); [|apply andb_false_r].
+    destruct (u_marker u); [reflexivity | exfalso; apply (Hm eq_refl); reflexivity]. }
+  rewrite Hmk. cbn [zlen llen]. rewrite Z.sub_diag, !Z.add_0_r.
+  destruct st, u; reflexivity.
+Qed.
+
+(* an unknown whence: lungo seeks to position 0 and reports success, an
+   in-memory reader reports an error and stays *)
+Theorem download_equiv_refuted_whence :
+  exists st f cs content script d,
+    wf_file st f cs content /\ dopen st f = DOpened d /\
+    fst (run_download st d script) <> fst (run_reader (bytes_reader content) script).
+Proof.
+  destruct (upload_canonical (mkCfg 8 false) 1 2 [[10; 11; 12]] empty_store ltac:(cbn; lia)
+              (fresh_empty 1) ids_fresh_empty) as [st [Hrun [Hst _]]].
+  pose proof (stored_wf_file (mkCfg 8 false) 1 2 _ st ltac:(lia) Hst) as Hwf. simpl concat in Hwf.
+  vm_compute in Hrun. inversion Hrun; subst st. clear Hrun.
+  eexists _, 1, 2, [10; 11; 12], [DRead 2; DSeek 1 3; DRead 1], _.
+  split; [exact Hwf|]. split; [vm_compute; reflexivity|]. vm_compute. discriminate.
+Qed.
+
+(* ------------------------------------------------------------------ *)
+(* Non-vacuity: the hypotheses are satisfiable and the runs compute      *)
+
+Example upload_example :
+  let c := mkCfg 4 true in
+  fresh empty_store 7 /\ ids_fresh empty_store /\ 0 < 3 <= cfg_B c /\
+  exists st,
+    upload_run c empty_store 7 3 [[1; 2]; [3; 4; 5; 6; 7]; []; [8]] = Some st /\
+    find_chunks st 7 = [mkChunk 7 0 [1; 2; 3]; mkChunk 7 1 [4; 5; 6]; mkChunk 7 2 [7; 8]] /\
+    find_file st 7 = Some (mkFile 7 8 3).
+Proof.
+  cbn zeta. split; [apply fresh_empty|]. split; [apply ids_fresh_empty|]. split; [cbn; lia|].
+  eexists. split; [vm_compute; reflexivity|]. split; vm_compute; reflexivity.
+Qed.
+
+Example suspend_resume_example :
+  let c := mkCfg 4 true in
+  let content := [1; 2; 3; 4; 5; 6; 7; 8] in
+  let script := [CSuspendResume; CWrite 2; CSuspendResume; CWrite 5; CSuspendResume; CWrite 1] in
+  script_ok c script /\
+  exists st,
+    client_upload c empty_store 7 3 content script = Some st /\
+    find_chunks st 7 = [mkChunk 7 0 [1; 2; 3]; mkChunk 7 1 [4; 5; 6]; mkChunk 7 2 [7; 8]] /\
+    find_file st 7 = Some (mkFile 7 8 3).
+Proof.
+  cbn zeta. split; [left; reflexivity|]. eexists.
+  split; [vm_compute; reflexivity|]. split; vm_compute; reflexivity.
+Qed.
+
+Example download_example :
+  let st := mkStore [mkChunk 7 0 [1; 2; 3]; mkChunk 7 1 [4; 5; 6]; mkChunk 7 2 [7; 8]] [mkFile 7 8 3] [] 0 in
+  let script := [DRead 2; DRead 0; DSkip 2; DRead 9; DRead 1; DSeek (-3) 2; DRead 1; DSeek (-9) 2;
+                 DSeek 20 0; DRead 0; DSeek 3 0; DRead 4] in
+  wf_file st 7 3 [1; 2; 3; 4; 5; 6; 7; 8] /\ Forall valid_op script /\
+  exists d, dopen st 7 = DOpened d /\
+    fst (run_download st d script) =
+      [ORead [1; 2] None; ORead [] None; OPos 4; ORead [5; 6; 7; 8] None; ORead [] (Some EEOF);
+       OPos 5; ORead [6] None; OErr ENeg; OPos 20; ORead [] (Some EEOF); OPos 3; ORead [4; 5; 6; 7] None].
+Proof.
+  cbn zeta. split; [split; [lia | split; reflexivity]|]. split.
+  { repeat constructor; cbn; try lia; unfold valid_whence; lia. }
+  eexists. split; [vm_compute; reflexivity|]. vm_compute. reflexivity.
+Qed.
+
+Example abort_example :
+  let c := mkCfg 4 true in
+  exists st,
+    client_abort c empty_store 7 3 [1; 2; 3; 4; 5; 6; 7; 8] [CWrite 5; CSuspendResume; CWrite 4] = Some st /\
+    s_chunks st = [] /\ s_markers st = [] /\ s_files st = [].
+Proof.
+  cbn zeta. eexists. split; [vm_compute; reflexivity|]. repeat split; reflexivity.
+Qed.
+
+Example delete_example :
+  exists st st' st'',
+    upload_run (mkCfg 4 false) empty_store 7 3 [[1; 2; 3; 4; 5]] = Some st /\
+    delete (mkCfg 4 false) st 7 = (st', UOk) /\ s_chunks st' = [] /\
+    upload_run (mkCfg 4 true) empty_store 7 3 [[1; 2; 3; 4; 5]] = Some st'' /\
+    exists st3, delete_cleanup (mkCfg 4 true) st'' 7 = Some st3 /\
+                s_chunks st3 = [] /\ s_files st3 = [] /\ s_markers st3 = [].
+Proof.
+  do 3 eexists. split; [vm_compute; reflexivity|]. split; [vm_compute; reflexivity|].
+  split; [reflexivity|]. split; [vm_compute; reflexivity|].
+  eexists. split; [vm_compute; reflexivity|]. repeat split; reflexivity.
+Qed.
